@@ -253,6 +253,25 @@ pub fn run(ctx: &Ctx) -> Outcome {
                 acc.count("casei-compared-with-spelled-out-classes");
             }
         }
+        // (f) construction paths: FromStr and a builder without options are Regex::new; as_str / Display return the pattern
+        {
+            let parsed = guard(|| s.parse::<fancy_regex::Regex>());
+            match parsed {
+                Got::Val(r) => {
+                    let w = all(&r);
+                    compare(acc, "construction-path", json!({"path": "str::parse::<Regex>()"}), &base, &w, &s);
+                    if r.as_str() != s || plain.as_str() != s || format!("{}", plain) != s {
+                        acc.violate(Violation::new("C14", "construction-path", &s, "", 0, "Regex::as_str / Display", format!("{:?}", s), format!("{:?} / {:?} / {:?}", r.as_str(), plain.as_str(), format!("{}", plain))));
+                    }
+                }
+                o => acc.violate(Violation::new("C14", "construction-path", &s, "", 0, "str::parse::<Regex>()", "Ok, as Regex::new".into(), o.map(|_| "Ok").show())),
+            }
+            if let Got::Val(r) = compile_with(&s, |_| {}) {
+                let w = all(&r);
+                compare(acc, "construction-path", json!({"path": "RegexBuilder::new(p).build()"}), &base, &w, &s);
+            }
+            acc.count("construction-paths-compared");
+        }
         // (b) options that must not change anything
         for (name, opts, f) in [
             ("case_insensitive(false)", json!({"case_insensitive": false}), Box::new(|b: &mut RegexBuilder| { b.case_insensitive(false); }) as Box<dyn Fn(&mut RegexBuilder)>),
@@ -337,7 +356,7 @@ pub fn run(ctx: &Ctx) -> Outcome {
     });
     let mut out = Outcome::new(acc);
     out.distinct_nontrivial = out.acc.distinct;
-    out.rule = format!("{} patterns: all trees of <= 4 nodes (thorough: plus a sixth of the 5-node trees) over a A b . [ab] [^a] [A-B] ^ \\b \\1 (?-i:a) (?i:b) with groups, atomic groups, look-arounds, 5 quantifier forms; context products; patterns with large delegated pieces (\\w{{n}} plain, before a look-ahead, around \\b, in a back-referenced group, in an atomic alternation); x {} texts over {{a,A,b,B}} x every offset (incl. letter-free trees over [0-_] [@-_] [_-~] [^!-_] [0-9] . \\b ^ -); plus {} patterns (trees of <= 3 nodes and context products) over k, LONG-S, the titlecase and lower-case DZ-WITH-CARON letters, sharp s, ks, (?-i:k), \\b, \\1 x all texts of <= 2 letters over their case orbits (k K KELVIN-SIGN s LONG-S and the three DZ letters, both sharp s). (a) case_insensitive(true) must give exactly the captures of \"(?i)\"+P; (e) case_insensitive(true) on P must also give the captures of P with both cases of every letter spelled out as classes and the flag groups dropped (an independent statement of what the flag means); (b) case_insensitive(false), huge limits and a zero DFA cache must not change anything; (c) delegate_size_limit(n) for n in {{1,200,5000,100000}}: the build must fail when regex-automata's own meta::Builder rejects a delegated piece (each Delegate pattern of the VM program, or the whole pattern) under nfa_size_limit(n) and succeed with unchanged results when it accepts all of them - judged only where the oracle gives the same verdict at n/4 and 4n; (d) backtrack_limit(0): plain patterns unchanged, fancy ones unchanged or BacktrackLimitExceeded. Non-trivial: distinct patterns whose results change under case_insensitive(true).", items.len() - n_fold, texts.len(), n_fold);
+    out.rule = format!("{} patterns: all trees of <= 4 nodes (thorough: plus a sixth of the 5-node trees) over a A b . [ab] [^a] [A-B] ^ \\b \\1 (?-i:a) (?i:b) with groups, atomic groups, look-arounds, 5 quantifier forms; context products; patterns with large delegated pieces (\\w{{n}} plain, before a look-ahead, around \\b, in a back-referenced group, in an atomic alternation); x {} texts over {{a,A,b,B}} x every offset (incl. letter-free trees over [0-_] [@-_] [_-~] [^!-_] [0-9] . \\b ^ -); plus {} patterns (trees of <= 3 nodes and context products) over k, LONG-S, the titlecase and lower-case DZ-WITH-CARON letters, sharp s, ks, (?-i:k), \\b, \\1 x all texts of <= 2 letters over their case orbits (k K KELVIN-SIGN s LONG-S and the three DZ letters, both sharp s). (a) case_insensitive(true) must give exactly the captures of \"(?i)\"+P; (e) case_insensitive(true) on P must also give the captures of P with both cases of every letter spelled out as classes and the flag groups dropped (an independent statement of what the flag means); (f) str::parse::<Regex>() and RegexBuilder::new(P).build() behave like Regex::new(P), as_str / Display give P back; (b) case_insensitive(false), huge limits and a zero DFA cache must not change anything; (c) delegate_size_limit(n) for n in {{1,200,5000,100000}}: the build must fail when regex-automata's own meta::Builder rejects a delegated piece (each Delegate pattern of the VM program, or the whole pattern) under nfa_size_limit(n) and succeed with unchanged results when it accepts all of them - judged only where the oracle gives the same verdict at n/4 and 4n; (d) backtrack_limit(0): plain patterns unchanged, fancy ones unchanged or BacktrackLimitExceeded. Non-trivial: distinct patterns whose results change under case_insensitive(true).", items.len() - n_fold, texts.len(), n_fold);
     out.assumptions = vec!["regex-automata is the oracle for 'exceeds the size limit'; pieces are read from Regex::debug_print".into()];
     let (cv, ci, rv, rw) = (out.acc.get("casei-changes-results:vm"), out.acc.get("casei-changes-results:with-inner-(?-i"), out.acc.get("size-limit-rejections:vm"), out.acc.get("size-limit-rejections:wrapped"));
     out.extra = json!({"casei_changes_results_vm": cv, "with_inner_minus_i": ci, "size_limit_rejections": {"vm": rv, "wrapped": rw}});
